@@ -55,8 +55,11 @@ def seeded():
 def main():
     p = os.path.join(VERIF, "DESIGN.md")
     s = open(p).read()
-    s = re.sub(r"<!-- APPENDIX-A -->.*?(?=\Z)", "<!-- APPENDIX-A -->\n" + appendix() + "\n", s, flags=re.S)
-    s = re.sub(r"<!-- SEEDED-TABLE -->.*?(?=\n---------)", "<!-- SEEDED-TABLE -->\n" + seeded() + "\n", s, flags=re.S)
+    a = s.index("<!-- APPENDIX-A -->")
+    s = s[:a] + "<!-- APPENDIX-A -->\n" + appendix() + "\n"
+    a = s.index("<!-- SEEDED-TABLE -->")
+    b = s.index("\n---------", a)
+    s = s[:a] + "<!-- SEEDED-TABLE -->\n" + seeded() + "\n" + s[b:]
     open(p, "w").write(s)
     print("DESIGN.md appendix regenerated")
 
